@@ -27,7 +27,7 @@ ASSUMPTIONS = [
     "unnamed analyses may receive any names as long as all analysis names of one SimInput are distinct",
     "order is compared within each of the three lists (analyses, controls, options)",
 ]
-REQUIRED_COUNTERS = ["M-bound.sim.to_proto.calls", "siminput.compared", "style.proc", "style.add", "style.class", "lists.compared", "bad-tb.probed"]
+REQUIRED_COUNTERS = ["M-bound.sim.to_proto.calls", "siminput.compared", "style.proc", "style.add", "style.class", "lists.compared", "bad-tb.probed", "targets.diff-compared", "targets.refused", "targets.exported"]
 MIN_EVALS = 600
 MIN_NONTRIVIAL = 400
 
@@ -696,6 +696,129 @@ def bad_tbs(rec):
                     rec.violation("good-testbench-rejected", f"a valid testbench was rejected ({style}): {str(e)[:100]}", case=case)
 
 
+def target_probes(rec):
+    """Targets given as hardware objects are exported as the names those objects have in the exported testbench:
+    a Diff whose nets bundle flattening had to re-name, and objects which have no name there at all (unnamed, or of another
+    module, or a bundle inside a pair) - the latter are refused, or else named truthfully."""
+    import hdl21 as h
+    import hdl21.sim as hs
+
+    K = 1000
+
+    def nets_of(inp):
+        tbm = [m for m in inp.pkg.modules if m.name == inp.top][0]
+        conn = {}
+        for i in tbm.instances:
+            for c in i.connections:
+                conn[(i.name, c.portname)] = c.target.sig if c.target.WhichOneof("stype") == "sig" else None
+        return {sg.name for sg in tbm.signals}, {i.name for i in tbm.instances}, conn
+
+    # 1. the Diff's nets re-named by flattening, because something else has the default name
+    for taker in ("signal", "instance", "bundle", "none"):
+        for side in ("p", "n"):
+            t = hs.tb(f"NoiseDiffTb{next(_uid)}")
+            t.x = h.Signal()
+            if taker == "signal":
+                t.add(h.Signal(), name=f"d_{side}")
+                t.add(h.R(r=1 * K)(p=t.get(f"d_{side}"), n=t.VSS), name="rx")
+            elif taker == "instance":
+                t.add(h.R(r=1 * K)(p=t.x, n=t.VSS), name=f"d_{side}")
+            elif taker == "bundle":
+                b = h.Bundle(name=f"Pn{next(_uid)}")
+                b.add(h.Signal(), name=side)
+                t.add(h.BundleInstance(of=b), name="d_")  # (flattens to d__p / d__n: no clash, a near miss)
+                t.add(h.R(r=1 * K)(p=getattr(t.d_, side), n=t.VSS), name="rx")
+            t.d = h.Diff()
+            t.v = h.Vdc(dc=1)(p=t.x, n=t.VSS)
+            t.rp = h.R(r=1 * K)(p=t.d.p, n=t.VSS)
+            t.rn = h.R(r=1 * K)(p=t.d.n, n=t.VSS)
+            case = {"kind": "target", "probe": f"diff-renamed:{taker}:{side}"}
+            rec.case(key=f"target:diff:{taker}:{side}", nontrivial=True, sample=case)
+            rec.count("targets.diff-probed")
+            try:
+                inp = hs.to_proto(hs.Sim(tb=t, attrs=[hs.Noise(output=t.d, input_source=t.v, sweep=hs.LogSweep(1, 10, 1))]))
+            except Exception as e:
+                rec.violation("diff-output-rejected", f"a Diff of the testbench given as Noise output was rejected ({taker} named d_{side}): {str(e)[:100]}", case=case)
+                continue
+            _, _, conn = nets_of(inp)
+            got = (inp.an[0].noise.output_p, inp.an[0].noise.output_n)
+            want = (conn[("rp", "p")], conn[("rn", "p")])
+            rec.count("targets.diff-compared")
+            if got != want:
+                rec.violation("noise-diff-output-not-the-flattened-nets", f"Noise(output=<Diff d>) with a {taker} named d_{side} in the testbench: exported {got}, the Diff's nets are {want}", case=case, taker=taker)
+
+    # 2. objects which are not named members of the testbench
+    def base():
+        t = hs.tb(f"TargTb{next(_uid)}")
+        t.a = h.Signal()
+        t.v = h.Vdc(dc=1)(p=t.a, n=t.VSS)
+        t.r = h.R(r=1 * K)(p=t.a, n=t.VSS)
+        dut = h.Module(name=f"TargDut{next(_uid)}")
+        dut.a, dut.q = h.Port(), h.Signal()
+        dut.r = h.R(r=1 * K)(p=dut.a, n=dut.q)
+        dut.r2 = h.R(r=1 * K)(p=dut.q, n=dut.a)
+        t.dut = dut(a=t.a)
+        tri = h.Bundle(name=f"Trio{next(_uid)}")
+        tri.add(h.Signal(), name="x")
+        tri.add(h.Signal(), name="y")
+        t.b = h.BundleInstance(of=tri)
+        t.rb = h.R(r=1 * K)(p=t.b.x, n=t.b.y)
+        return t, dut
+
+    sw = lambda: hs.LogSweep(1, 10, 1)
+    probes = {
+        "save-unnamed-signal": lambda t, d: hs.Save(h.Signal()),
+        "save-list-with-unnamed-signal": lambda t, d: hs.Save([t.a, h.Signal()]),
+        "save-signal-of-dut": lambda t, d: hs.Save(d.q),
+        "save-port-of-dut-same-name": lambda t, d: hs.Save(d.a),
+        "save-list-with-signal-of-dut": lambda t, d: hs.Save([t.a, d.q]),
+        "noise-unnamed-diff": lambda t, d: hs.Noise(output=h.Diff(), input_source=t.v, sweep=sw()),
+        "noise-unnamed-signal": lambda t, d: hs.Noise(output=h.Signal(), input_source=t.v, sweep=sw()),
+        "noise-signal-of-dut": lambda t, d: hs.Noise(output=d.q, input_source=t.v, sweep=sw()),
+        "noise-pair-with-signal-of-dut": lambda t, d: hs.Noise(output=(t.a, d.q), input_source=t.v, sweep=sw()),
+        "noise-pair-with-bundle": lambda t, d: hs.Noise(output=(t.b, t.a), input_source=t.v, sweep=sw()),
+        "noise-pair-with-unnamed-signal": lambda t, d: hs.Noise(output=(t.a, h.Signal()), input_source=t.v, sweep=sw()),
+        "noise-unnamed-source": lambda t, d: hs.Noise(output=t.a, input_source=h.Vdc(dc=1)(), sweep=sw()),
+        # controls: the same forms with members of the testbench are exported
+        "ok-save-signal": lambda t, d: hs.Save(t.a),
+        "ok-save-port": lambda t, d: hs.Save(t.VSS),
+        "ok-save-list": lambda t, d: hs.Save([t.a, t.VSS]),
+        "ok-noise-pair": lambda t, d: hs.Noise(output=(t.a, t.VSS), input_source=t.v, sweep=sw()),
+    }
+    for pname, mk in probes.items():
+        for pre in (False, True):
+            t, d = base()
+            if pre:
+                h.elaborate(t)
+            case = {"kind": "target", "probe": pname, "elaborated_before": pre}
+            rec.case(key=f"target:{pname}:{pre}", nontrivial=True, sample=case)
+            rec.count("targets.probed")
+            try:
+                attr = mk(t, d)
+                inp = hs.to_proto(hs.Sim(tb=t, attrs=[attr]))
+            except Exception as e:
+                rec.count("targets.refused")
+                if pname.startswith("ok-"):
+                    rec.violation("good-target-rejected", f"{pname}: a member of the testbench was rejected as a target: {str(e)[:100]}", case=case)
+                continue
+            rec.count("targets.exported")
+            sigs, insts, _ = nets_of(inp)
+            if inp.ctrls:
+                sv = inp.ctrls[0].save
+                names = sv.signal.split(",") if sv.WhichOneof("save") == "signal" else [""]
+                srcs = []
+            else:
+                nz = inp.an[0].noise
+                names = [nz.output_p] + ([nz.output_n] if nz.output_n or "pair" in pname else [])
+                srcs = [nz.input_source]
+            if pname.startswith("ok-"):
+                if any(n not in sigs for n in names) or any(x not in insts for x in srcs):
+                    rec.violation("target-name-wrong", f"{pname}: exported names {names} / {srcs} are not those of the testbench members given", case=case)
+                continue
+            # not a member of the testbench, yet exported: whatever name was written stands for something else (or nothing)
+            rec.violation("target-not-of-testbench-exported", f"{pname}: a target which is not a named net / instance of the testbench was exported as {names} source {srcs}", case=case, probe=pname)
+
+
 def run(ctx, rec):
     attach(rec)
     rng = ctx.rng("c17")
@@ -708,6 +831,7 @@ def run(ctx, rec):
         reexports(rec, rng, k)
     if ctx.shard == 0:
         bad_tbs(rec)
+        target_probes(rec)
     rec.exhaustive = False
     _bound["rec"] = None
 
@@ -720,6 +844,9 @@ def replay(ctx, rec, case):
     import random
 
     attach(rec)
+    if case.get("kind") == "target":
+        target_probes(rec)
+        return
     if case.get("kind") == "tb":
         bad_tbs(rec)
         return
